@@ -349,7 +349,8 @@ func runC17(c c17Case) *Violation {
 		time.Sleep(time.Duration(c.Factor * float64(T) / 4))
 		t0 := time.Now()
 		rig.Proxy.CutAll("blackhole")
-		bound := 5*T + 2*time.Second
+		// (silence is noticed one timeout after the last keepalive: three timeouts plus a second is ample at every scale)
+		bound := 3*T + time.Second
 		if c.Scenario == "blackhole_idle" {
 			// nothing is pending; a call issued now must fail (or succeed after reconnect) within the bound
 			ps = append(ps, rig.Go(cl, "call", rig.Tok("late"), Plan{}))
